@@ -12,6 +12,7 @@ mod gen_claims;
 mod facts;
 mod gen_text;
 mod impls;
+mod rsa_pool;
 mod util;
 
 use std::io::{BufRead, Write};
@@ -37,6 +38,18 @@ fn main() {
                 writeln!(out, "{}", exec::exec_line(l)).unwrap();
             }
         }
+        Some("rsapool") => {
+            // one-off tool: generate RSA keys with the library and print `<der length> <hex>` (used to build rsa_pool.rs)
+            let n: usize = args.get(2).and_then(|s| s.parse().ok()).unwrap_or(64);
+            let hs: Vec<_> = (0..16).map(|_| std::thread::spawn(move || {
+                (0..n.div_ceil(16)).map(|_| gen_tok::gen_secret_random(be::Be::V1)).collect::<Vec<_>>()
+            })).collect();
+            for h in hs {
+                for k in h.join().unwrap() {
+                    writeln!(out, "{} {}", k.len(), util::hex(&k)).unwrap();
+                }
+            }
+        }
         Some("gen") => {
             let stream = args.get(2).expect("stream");
             let tier = args.get(3).map(|s| s.as_str()).unwrap_or("quick");
@@ -58,6 +71,7 @@ fn main() {
                 "c07" => gen_paserk::gen_c07(&mut out, seed, thorough),
                 "c08" => gen_paserk::gen_c08(&mut out, seed, thorough),
                 "c13" => gen_paserk::gen_c13(&mut out, seed, thorough),
+                "c19smoke" => gen_paserk::gen_c19smoke(&mut out, seed, thorough),
                 "c11" => gen_claims::gen_c11(&mut out, seed, thorough),
                 "c12pipe" => gen_claims::gen_c12pipe(&mut out, seed, thorough),
                 "c14" => gen_claims::gen_c14(&mut out, seed, thorough),
